@@ -19,6 +19,35 @@ HANG_AFTER = 1.0       # a read without timeout that sees nothing for this long 
 QUIET_WAIT = 4.0       # upper bound for waiting for the remote to become quiescent
 
 
+SLEEPERS = ("nanosleep", "nsleep", "hrtimeout")     # kernel wait channels of a process that wakes up by itself
+
+
+def session_busy(sid):
+    """is some process of the session `sid` runnable, in uninterruptible sleep, or sleeping on a timer?  (Then the
+    remote side may still produce output: on a loaded machine silence alone does not mean that it never will.)"""
+    for name in os.listdir("/proc"):
+        if not name.isdigit():
+            continue
+        try:
+            with open(f"/proc/{name}/stat", "rb") as f:
+                st = f.read().decode("latin-1")
+            rest = st[st.rindex(")") + 2:].split()
+            if int(rest[3]) != sid:
+                continue
+            if rest[0] in ("R", "D"):
+                return True
+            with open(f"/proc/{name}/wchan", "rb") as f:
+                w = f.read().decode("latin-1")
+            if any(x in w for x in SLEEPERS):
+                return True
+        except (OSError, ValueError, IndexError):
+            continue
+    return False
+
+
+HANG_CAP = 60.0        # … but not for ever
+
+
 class RemoteSilent(BaseException):
     """a blocking read without timeout got nothing for HANG_AFTER seconds (tbot would wait for ever)"""
 
@@ -46,6 +75,7 @@ class RunIO(shellio.FragIO):
 
         self.p = subprocess.Popen(argv, stdin=self.slave, stdout=self.slave, stderr=self.slave,
                                   preexec_fn=pre, env=env)
+        self.sid = self.p.pid          # (setsid in the child: the shell leads its session)
         fl = fcntl.fcntl(self.master, fcntl.F_GETFL)
         fcntl.fcntl(self.master, fcntl.F_SETFL, fl | os.O_NONBLOCK)
         self.buf = bytearray()
@@ -74,7 +104,7 @@ class RunIO(shellio.FragIO):
     def _fill(self, timeout):
         if timeout is not None:
             return super()._fill(timeout)
-        silent = 0.0
+        silent = total = 0.0
         while True:
             r, _, _ = select.select([self.master], [], [], 0.1)
             if self.master in r:
@@ -82,7 +112,12 @@ class RunIO(shellio.FragIO):
             if self.closed:
                 raise tbot.error.ChannelClosedError
             silent += 0.1
+            total += 0.1
             if silent >= HANG_AFTER:
+                # silence counts only while every process behind the pty is blocked (waiting for input / for a child)
+                if total < HANG_CAP and session_busy(self.sid):
+                    silent = 0.0
+                    continue
                 raise RemoteSilent()
         if self.linger:
             time.sleep(self.linger)
@@ -258,7 +293,14 @@ class Sync:
         if self.off:
             return
         end = time.monotonic() + QUIET_WAIT
-        while time.monotonic() < end:
+        hard = time.monotonic() + HANG_CAP
+        while True:
+            if time.monotonic() >= end:
+                # on a loaded machine the remote may simply not have been scheduled yet
+                if time.monotonic() < hard and session_busy(self.io.sid):
+                    end = time.monotonic() + 0.5
+                else:
+                    return
             st = self.last_state()
             self.io.pump()
             if self.killed or st == "X":
